@@ -244,6 +244,25 @@ func init() {
 			return "[" + strings.Join(parts, ", ") + "]", ps, nil
 		},
 	})
+	// the key bytes of every parameter, in table order (what the replacer looks for)
+	addFact(fact{
+		name:   "jobScriptKeys",
+		leanTy: "List (String × List UInt8)",
+		deflt:  "[]",
+		extract: func(repo string) (string, interface{}, error) {
+			ps, err := c18JobScriptParams(repo)
+			if err != nil {
+				return "", nil, err
+			}
+			var parts []string
+			js := map[string]string{}
+			for _, p := range ps {
+				parts = append(parts, "("+leanStr(p[0])+", "+leanBytes("__MRO_"+p[0]+"__")+")")
+				js[p[0]] = "__MRO_" + p[0] + "__"
+			}
+			return "[" + strings.Join(parts, ",\n   ") + "]", js, nil
+		},
+	})
 	// every shipped template that has a command line, cut into lines and each
 	// line into segments: ("", literal bytes) | (NAME, []) for __MRO_NAME__
 	// (the first parameter, in table order, whose key is a prefix of the text
